@@ -83,7 +83,11 @@ class WebSocket(object):
             if _url.port else
             (443 if self.scheme == 'wss' else 80)
         )
-        self._host_port = "{}:{}".format(self.host, self.port)
+        self._host_port = "{}:{}".format(
+            # An IPv6 literal needs its brackets in an authority
+            '[{}]'.format(self.host) if ':' in (self.host or '') else self.host,
+            self.port
+        )
         self.resource = _url.path or '/'
         if _url.query:
             self.resource = "{}?{}".format(self.resource, _url.query)
